@@ -25,6 +25,7 @@ Commands
 * `c18.list MODE | volumes | nodes | conns` → same or `ERR:dup`            (list of named volumes)
 * `c18.dictpts volumes | pts` → `name:bits/…`
 * `c18.imat MODE | volumes | nodes~conns # nodes~conns …` → `name:n,n,…/…`   (`attr='n_nodes'`)
+* `c18.imatlist MODE | volumes | trees` → same for a *list* of volumes, `ERR:dup` for duplicated names
 * `c18.snap data | ids | queries` → `id:d2;…` (`ids` empty ⇒ row index)
 * `c18.hist solid0 | op | op | …` → one `fresh:usedbits:curbits` per query op, `;`-separated.  A *volume history*: object 0
   starts as a fresh Volume with geometry `solid0`; ops (blank-separated words)
@@ -287,6 +288,14 @@ def run (cmd : String) (rest : String) : Option String :=
       | [n, c] => parseTree n c
       | _ => none) trees
     pure (showDict showNats (intersectionMatrix id (fun t => t.nodes.length) mode (mkDict vols) ts))
+  | "imatlist", [mode, vols, trees] => do
+    let mode ← parseMode mode; let vols ← parseVols vols
+    let ts ← parseList "#" (fun t => match (trim t).splitOn "~" with
+      | [n, c] => parseTree n c
+      | _ => none) trees
+    match intersectionMatrixList id (fun t => t.nodes.length) mode vols ts with
+    | none => pure "ERR:dup"
+    | some d => pure (showDict showNats d)
   | "snap", [data, ids, qs] => do
     let data ← parsePts data; let ids ← intList? ids; let qs ← parsePts qs
     let one := fun q =>
